@@ -620,7 +620,7 @@ def execute(world, consts, rs=None, ops=None, n_ops=None):
             err = dg.canon_error(e)
         after_s = snapshot(iso)
         after = after_s["labels"]
-        events.append([op["op"], err, [after[k] for k in LABELS]])
+        events.append([op["op"], err, [after[k] for k in LABELS], dg.sha([after_s["cols"], after_s["_temperature"]])[:16]])
         count("ops")
         count("op:" + op["op"])
         if op["op"] == "observe":
